@@ -14,6 +14,8 @@ Scenario (JSON-able dict):
   controls: list of [tick, kind, arg] sorted by tick; kinds:
             ensure w | cancel w | zeroconf [host indices] | soon | drop cid | dropreset cid | close | shutdown
   end:      tick at which the run stops (a final snapshot is taken)
+  style:    "v4" (default) or "v6": hosts are advertised as non-canonical IPv6 literals and the
+            connected peer reports the canonical, scoped spelling (address normalisation)
 Trace: list of [tick, kind, ...] with a canonical order inside one tick.
 """
 from __future__ import annotations
@@ -28,11 +30,28 @@ import simacc
 import vloop
 
 
+STYLE = "v4"
+
+
 def host(i):
+    """Advertised form of host i.  Style v6: a non-canonical IPv6 spelling, so that the code's
+    address normalisation (exclusion bookkeeping vs. the connected peer address) is exercised."""
+    if STYLE == "v6":
+        return f"2001:db8:0:0:0:0:0:{i + 1:x}"
     return f"10.0.0.{i + 1}"
 
 
+def peer_form(h):
+    """What getpeername() reports for a connection to advertised address h (style v6: canonical
+    zero-compressed spelling plus a scope id)."""
+    if ":" in h:
+        return f"2001:db8::{h.rsplit(':', 1)[1]}%eth0"
+    return h
+
+
 def hidx(h):
+    if ":" in h:
+        return int(h.partition("%")[0].rsplit(":", 1)[1], 16) - 1
     return int(h.rsplit(".", 1)[1]) - 1
 
 
@@ -59,7 +78,8 @@ def canon(trace):
 
 
 def run_scenario(sc):
-    logging.disable(logging.CRITICAL)
+    global STYLE
+    STYLE = sc.get("style", "v4")
     nhosts = sc["hosts"]
     hosts = [host(i) for i in range(nhosts)]
     verifies = [list(v) for v in sc.get("verifies", [])]
@@ -69,6 +89,7 @@ def run_scenario(sc):
     async def main(loop):
         import aiohomekit.controller.ip.connection as connmod
         net = vloop.Net(loop, [tuple(d) for d in sc.get("dials", [])])
+        net.peer_form = peer_form
         trace = []
 
         def log(kind, *args):
